@@ -121,6 +121,10 @@ Lemma firstn_app_exact {X} (a b : list X) : firstn (List.length a) (a ++ b) = a.
 Proof. induction a; cbn; [reflexivity|]. now rewrite IHa. Qed.
 Lemma skipn_app_exact {X} (a b : list X) : skipn (List.length a) (a ++ b) = b.
 Proof. induction a; cbn; auto. Qed.
+Lemma firstn_app_len {X} k (a b : list X) : List.length a = k -> firstn k (a ++ b) = a.
+Proof. intros <-. apply firstn_app_exact. Qed.
+Lemma skipn_app_len {X} k (a b : list X) : List.length a = k -> skipn k (a ++ b) = b.
+Proof. intros <-. apply skipn_app_exact. Qed.
 
 (* ------------------------------------------------------------------ records *)
 Inductive payload :=
@@ -216,7 +220,7 @@ Proof.
     pose proof (enc_le_length 8 n) as L.
     destruct (Nat.ltb_spec (List.length (enc_le 8 n ++ rest)) 8) as [Hl|Hl].
     { rewrite app_length in Hl. lia. }
-    rewrite <- L at 2 4. rewrite firstn_app_exact, skipn_app_exact.
+    rewrite (firstn_app_len _ _ _ L), (skipn_app_len _ _ _ L).
     rewrite le_roundtrip by (change (256 ^ N.of_nat 8) with (2 ^ 64); lia).
     replace ((f * 8 + 1) / 8) with f by lia. reflexivity.
   - replace ((f * 8 + 2) mod 8) with 2 by lia. rewrite varint_roundtrip by lia.
@@ -228,7 +232,7 @@ Proof.
     pose proof (enc_le_length 4 n) as L.
     destruct (Nat.ltb_spec (List.length (enc_le 4 n ++ rest)) 4) as [Hl|Hl].
     { rewrite app_length in Hl. lia. }
-    rewrite <- L at 2 4. rewrite firstn_app_exact, skipn_app_exact.
+    rewrite (firstn_app_len _ _ _ L), (skipn_app_len _ _ _ L).
     rewrite le_roundtrip by (change (256 ^ N.of_nat 4) with (2 ^ 32); lia).
     replace ((f * 8 + 5) / 8) with f by lia. reflexivity.
 Qed.
@@ -237,7 +241,7 @@ Lemma enc_record_nonempty r : exists b t, enc_record r = b :: t.
 Proof.
   destruct r as [f p]. destruct p; cbn [enc_record];
     match goal with |- context [enc_varint ?k ++ _] =>
-      destruct (enc_varint_nonempty k) as (b & t & E); rewrite E end;
+      destruct (enc_varint_nonempty k) as (b0 & t0 & E); rewrite E end;
     cbn [app]; eauto.
 Qed.
 
